@@ -19,7 +19,7 @@ REAL = common.REAL_DECODER + ["tpmstream.io.pretty.unmarshal", "tpmstream.io.eve
 ASSUMPTIONS = ["row derivation from events is this module's own folding logic (byte buffers -> one row, warnings inside a "
                "buffer before or after its row, non-byte list parents zero or one row)", "bit rows are counted, their bit "
                "patterns are not judged (C17 is not claimed)"]
-TIERS = {"quick": {"runs": 40000, "budget": 75}, "thorough": {"runs": 500000, "budget": 780}}
+TIERS = {"quick": {"runs": 40000, "budget": 150}, "thorough": {"runs": 500000, "budget": 780}}
 ANSI = re.compile(r"\x1b\[[0-9;]*m")
 PRINTABLE = set(range(0x20, 0x7F))
 
